@@ -60,8 +60,13 @@ func (run *c07Run) pprof(dir string, sem chan struct{}, args ...string) *c07Proc
 }
 
 func c07ReportFlags(cs *c07Case) []string {
-	return []string{"-symbolize=none", "-nodecount=1000000", "-nodefraction=0", "-edgefraction=0",
+	f := []string{"-symbolize=none", "-nodecount=1000000", "-nodefraction=0", "-edgefraction=0",
 		"-sample_index=" + cs.Index, "-unit=" + c07DisplayUnit(c07TypeFam(cs.Index))}
+	switch cs.Gran {
+	case "lines", "files", "addresses":
+		f = append(f, "-"+cs.Gran)
+	}
+	return f
 }
 
 func (run *c07Run) runCLI(i int, cs *c07Case, sem chan struct{}) *c07CLIOut {
